@@ -19,7 +19,7 @@ import re
 from concurrent.futures import ThreadPoolExecutor
 
 from gen import members as G
-from vlib import core
+from vlib import core, progstream
 
 MODULES = ["HmsProofs.C18"]
 
@@ -410,6 +410,28 @@ def run_sequences(j, n, max_len, n_inlang):
                     j.tie(f"inlang:{be}:{src}: ends with {out[:80]}, the direct calls leave {want!r}")
             elif direct.startswith("INT") and not out.startswith(("FATAL", "INTERRUPT")):
                 j.tie(f"inlang:{be}:{src}: the direct calls raise an interrupt, the program ends with {out[:80]}")
+    # member values: `let m = v.pop; …; m()` answers what `v.pop()` answers at the time of the call
+    shown = [(G.seq_program_shown(s, False), G.seq_program_shown(s, True)) for s, _ in sel]
+    outs = parallel_go("run", [f"(run (main {core.xhex(p)}))" for pair in shown for p in pair]) if shown else []
+    for k, (direct_src, held_src) in enumerate(shown):
+        gd, gh = outs[2 * k], outs[2 * k + 1]
+        j.stats["held_member_programs"] = j.stats.get("held_member_programs", 0) + 1
+        ctx.count(case_key=held_src, nontrivial=True)
+        rep = {"kind": "prog", "main": held_src, "direct": direct_src, "rep": "list_int", "member": "held-seq"}
+        if gh.startswith(("CRASH", "HANG", "PANIC")):
+            j.violate(("prog-crash", "held", gh[:40]), rep, f"the accepted program `{held_src}` crashes the host: {gh[:140]}")
+            continue
+        pd = dict(p.split("=", 1) for p in gd.split(" | ") if "=" in p)
+        ph = dict(p.split("=", 1) for p in gh.split(" | ") if "=" in p)
+        if not pd.get("A", "").startswith("ACCEPT") or not ph.get("A", "").startswith("ACCEPT"):
+            j.tie(f"inlang-rejected:{held_src}: {ph.get('A')}")
+            continue
+        for be in ("VM", "TREE"):
+            d, h = progstream.parse_outcome(pd.get(be)), progstream.parse_outcome(ph.get(be))
+            if h["cls"] in ("PANIC", "CRASH", "HANG") or not progstream.same_outcome(d, h):
+                j.violate(("held", be), rep, f"member values of a list on the {be} backend: `{held_src}` ends {h['cls']} {h.get('kind', '')} "
+                                             f"out={h.get('out', '')[-80:]!r}, the direct calls `{direct_src}` end {d['cls']} {d.get('kind', '')} out={d.get('out', '')[-80:]!r}")
+                break
 
 
 def read_tables():
